@@ -18,8 +18,9 @@
     * freedom from data races / shared mutable state under concurrent use is a property of the Go
       runtime execution that no Gallina model exhibits; it is covered by the harness only
       (goroutines + a -race build, see notes/C20.md);
-    * [..._partial] theorems carry a premise about a function that is not modelled (the bucket
-      effect of QualifyObjects); evalReferences is proved on a model of its closure [visit] under
+    * [..._partial] theorems carry a premise about a function that is not modelled; the bucket
+      effect of QualifyObjects is concrete since round 5 (Det/QualifyModel.v) and its premise is
+      discharged by [C20_qualify_map_order_irrelevant]; evalReferences is proved on a model of its closure [visit] under
       a locality premise on the (unmodelled) HCL expression evaluator; that the error STATUS is
       also independent of the order in which edges() lists references is not proved (the value is);
     * the models of State.EvalOptions, Resource.as and registry.lookup follow the tree WITH the
@@ -27,11 +28,16 @@
     * [C20_decl_order_partial] covers the DetachCycles stage only (no premise: sortMap's cycle
       detection is proved order-independent); that SortChanges emits a permutation respecting
       dependsOn is C04's theorem, and
-      "the resulting schema is the same" is checked on the real SQLite engine by the harness. *)
+      "the resulting schema is the same" is checked on the real SQLite engine by the harness;
+    * "the output of a differ / planner does not depend on what other differs of the process did
+      before" (round 5) is a property of Go package state: the finite obligation
+      [C20_pkgstate_covered] (generated census of package-level mutable variables against the table
+      of variables the `history` stage exercises) + the harness; not a theorem about the differs. *)
 From Coq Require Import List Bool Arith NArith Permutation String Relations.
 From Coq Require Sorting.Sorted.
 From Atlas Require Import Base.Bytes Plan.SortModel Dir.DirModel.
 From Atlas Require Import Det.Census Det.OrderModel Det.OrderIndep Det.SortMapCycle Det.EvalRefs Det.CensusCovered gen.Gen_MapRanges.
+From Atlas Require Import Det.QualifyModel Det.QualifyProofs Det.PkgState Det.PkgStateCovered gen.Gen_PkgState.
 Import ListNotations.
 
 (** * Census *)
@@ -43,6 +49,24 @@ Print Assumptions C20_census_covered.
 Example C20_census_nonvacuous :
   (3 <=? List.length (filter (fun r => class_eqb (mr_class r) SortedAfter) map_ranges))
   && (15 <=? List.length (filter (fun r => class_eqb (mr_class r) Sens) map_ranges)) = true.
+Proof. vm_compute. reflexivity. Qed.
+
+(** Round 5: census of package-level mutable state (gen/Gen_PkgState.v, written by the same go/types
+    pass on every run): every package-level variable of map / slice / pointer / sync type (or a struct
+    holding one) that the anchored packages write after initialisation is a row of the table
+    Det/PkgStateCovered.v -- which names, per variable, the scenario of the process-history stage
+    (`history`) that exercises it (7 rows) or the reason it cannot be reached (2 rows: the CLI flag
+    block, the framework's own crash-point table) -- and every row of that table is still a Mutable
+    variable of the regenerated census.  A new package-level cache breaks this obligation. *)
+Theorem C20_pkgstate_covered :
+  pkgstate_covered pkg_state exercised_state = true.
+Proof. exact pkgstate_is_covered. Qed.
+Print Assumptions C20_pkgstate_covered.
+(* the obligation is not vacuous: a new shared cache (mutant r5-b1) is refused *)
+Example C20_pkgstate_new_cache_refused :
+  pkgstate_covered
+    (PV "sql/mysql/internal/mysqlversion/mysqlversion.go" "c2cCache" "map" Mutable :: pkg_state)
+    exercised_state = false.
 Proof. vm_compute. reflexivity. Qed.
 
 (** * sql/internal/sqlx/plan.go *)
@@ -346,6 +370,130 @@ Print Assumptions C20_map_order_irrelevant_QualifyObjects_partial.
 Example C20_QualifyObjects_ex :
   QualifyObjects nat nat (fun s e => s + fst e * snd e) [(1, [(1, 5)]); (2, [(2, 1); (3, 1)])] 0 = 5.
 Proof. vm_compute. reflexivity. Qed.
+
+(** Round 5: QualifyObjects with its concrete bucket effect (Det/QualifyModel.v: SetQualifier on the
+    objects of the bucket, schemas[q] = true; then pass 3 over the slice).  No premise left: for ANY
+    order in which the two map ranges deliver byLabel and its inner maps, the qualifier of every
+    object is [qualifier_spec specs o] -- a boolean function of the object and the multiset of
+    (schema, label) pairs. *)
+Theorem C20_qualify_map_order_irrelevant : forall (specs : list qobj) (bl : list (nat * list (nat * list qobj))),
+  map_order bl (byLabel specs) ->
+  QualifyObjects_over bl specs = map (fun o => (o, qualifier_spec specs o)) specs.
+Proof. exact (fun specs bl => QualifyObjects_over_spec bl specs). Qed.
+Print Assumptions C20_qualify_map_order_irrelevant.
+
+(* [map_order] contains every order a Go range can produce: a permutation of the outer map whose
+   inner maps are permuted too *)
+Theorem C20_qualify_map_order_covers_permutations : forall (B : Type) (bl bl1 bl0 : list (nat * list B)),
+  Permutation bl bl1 ->
+  Forall2 (fun a b => fst a = fst b /\ Permutation (snd a) (snd b)) bl1 bl0 ->
+  map_order bl bl0.
+Proof. exact @map_order_perm2. Qed.
+Print Assumptions C20_qualify_map_order_covers_permutations.
+
+(* FULL statement of goal (a): the schemas of the realm / the tables of a schema in another order
+   ([specs'] a permutation of [specs]), the maps delivered in any order: every object gets the
+   qualifier the original order gives it, and the results are the same multiset. *)
+Theorem C20_qualify_order_independent : forall (specs specs' : list qobj) bl bl',
+  Permutation specs specs' ->
+  map_order bl (byLabel specs) -> map_order bl' (byLabel specs') ->
+  QualifyObjects_over bl' specs' = map (fun o => (o, qualifier_spec specs o)) specs' /\
+  Permutation (QualifyObjects_over bl specs) (QualifyObjects_over bl' specs').
+Proof. exact QualifyObjects_order_independent. Qed.
+Print Assumptions C20_qualify_order_independent.
+(* s1.users, s2.users (same name: both qualified), s3.s1 (named like a schema that became a
+   qualifier: qualified by pass 3), s3.tags (not qualified); byLabel reversed gives the same *)
+Example C20_qualify_ex :
+  let specs := [QO 1 10; QO 2 10; QO 3 1; QO 3 11] in
+  QualifyObjects_go specs = [(QO 1 10, Some 1); (QO 2 10, Some 2); (QO 3 1, Some 3); (QO 3 11, None)]
+  /\ QualifyObjects_over (rev (byLabel specs)) (rev specs) = rev (QualifyObjects_go specs)
+  /\ List.length (byLabel specs) = 3.
+Proof. vm_compute. repeat split; reflexivity. Qed.
+
+(** QualifyReferences (the foreign-key half of the realm path): byRef is keyed by (Qualifier, Name)
+    of the table specs after QualifyObjects.  The reference to a table of the realm is qualified
+    exactly when the table's block is; it does not depend on the order of the schemas / tables /
+    map deliveries; and the keys of byRef are pairwise distinct ("duplicate references" cannot be
+    returned for a realm whose (schema, table) pairs are distinct). *)
+Theorem C20_qualify_references_order_independent : forall specs specs' bl bl' target,
+  Permutation specs specs' ->
+  map_order bl (byLabel specs) -> map_order bl' (byLabel specs') ->
+  QualifyReferences_ref (QualifyObjects_over bl specs) target =
+  QualifyReferences_ref (QualifyObjects_over bl' specs') target.
+Proof. exact QualifyReferences_order_independent. Qed.
+Print Assumptions C20_qualify_references_order_independent.
+Theorem C20_qualify_references_match_blocks : forall specs bl target,
+  map_order bl (byLabel specs) -> In target specs ->
+  QualifyReferences_ref (QualifyObjects_over bl specs) target =
+  match qualifier_spec specs target with
+  | Some q => RefQualified q (q_label target)
+  | None => RefPlain (q_label target)
+  end.
+Proof.
+  exact (fun specs bl target M H =>
+    eq_trans (f_equal (fun r => QualifyReferences_ref r target) (QualifyObjects_over_spec bl specs M))
+             (QualifyReferences_ref_spec specs target H)).
+Qed.
+Print Assumptions C20_qualify_references_match_blocks.
+Theorem C20_qualify_references_no_duplicate : forall specs bl,
+  map_order bl (byLabel specs) -> NoDup specs ->
+  NoDup (map byRef_key (QualifyObjects_over bl specs)).
+Proof.
+  exact (fun specs bl M ND =>
+    eq_ind_r (fun r => NoDup (map byRef_key r)) (QualifyReferences_no_duplicate specs ND)
+             (QualifyObjects_over_spec bl specs M)).
+Qed.
+Print Assumptions C20_qualify_references_no_duplicate.
+Example C20_qualify_references_ex :
+  let specs := [QO 1 10; QO 2 10; QO 3 1; QO 3 11] in
+  map (QualifyReferences_ref (QualifyObjects_go specs)) [QO 2 10; QO 3 1; QO 3 11; QO 2 11]
+  = [RefQualified 2 10; RefQualified 3 1; RefPlain 11; RefPlain 11]
+  /\ QualifyReferences_ref (QualifyObjects_go specs) (QO 2 12) = RefMissing.
+Proof. vm_compute. split; reflexivity. Qed.
+
+(* REFUTED: "after QualifyObjects no block written with one label carries a name that another block
+   uses as its qualifier".  The last loop qualifies s2.s1 (label = the qualifier s1) with s2 but does
+   not add s2 to the set it consults: s2.s2 stays [table "s2"] next to [table "s2" "s1"].
+   Reproduced on the real code (found by the thorough tier): the document does not evaluate
+   (oracle class qualify-roundtrip, known finding C20-qualify-pass3-not-closed). *)
+Theorem C20_qualify_unambiguous_refuted :
+  exists specs, NoDup specs /\ ambiguousb (QualifyObjects_go specs) = true.
+Proof. exact qualify_unambiguous_refuted. Qed.
+Print Assumptions C20_qualify_unambiguous_refuted.
+(* what the last loop does guarantee: no unqualified object is labelled like the schema of an
+   object qualified because of a same-named object in another schema *)
+Theorem C20_qualify_unambiguous_except : forall specs o o',
+  qualifier_spec specs o = None -> In o' specs -> conflictb specs o' = true -> q_label o <> q_schema o'.
+Proof. exact qualify_unambiguous_except. Qed.
+Print Assumptions C20_qualify_unambiguous_except.
+Example C20_qualify_unambiguous_ex :
+  ambiguousb (QualifyObjects_go [QO 1 10; QO 2 10; QO 3 1; QO 3 11]) = false /\
+  QualifyObjects_go [QO 1 10; QO 2 1; QO 2 2; QO 3 10]
+  = [(QO 1 10, Some 1); (QO 2 1, Some 2); (QO 2 2, None); (QO 3 10, Some 3)].
+Proof. vm_compute. split; reflexivity. Qed.
+
+(* REFUTED: "a reference to an object carries a qualifier exactly when the object's block does".
+   specutil.ObjectRef only applies the pass-2 condition (same name in another schema); an object
+   named like a schema whose name became a qualifier is written [enum "s3" "s1"] by pass 3 but
+   referred to as [enum.s1].  Reproduced on the real code: postgres.MarshalHCL of such a realm gives
+   a document whose column type refers to a block it does not contain (oracle class
+   qualify-dangling-ref, known finding C20-qualify-objectref-schema-named). *)
+Theorem C20_ObjectRef_matches_qualifier_refuted :
+  exists specs o, In o specs /\ ObjectRef_qualified specs o = false /\ qualifier_spec specs o = Some (q_schema o).
+Proof. exact ObjectRef_qualified_refuted. Qed.
+Print Assumptions C20_ObjectRef_matches_qualifier_refuted.
+(* what does hold: a qualified reference always points to a qualified block, and the two agree
+   whenever the object's label is not the name of a schema used as a qualifier *)
+Theorem C20_ObjectRef_matches_qualifier_except : forall specs o,
+  (ObjectRef_qualified specs o = true -> qualifier_spec specs o = Some (q_schema o)) /\
+  (schema_used specs (q_label o) = false ->
+   (ObjectRef_qualified specs o = true <-> qualifier_spec specs o <> None)).
+Proof. exact (fun specs o => conj (ObjectRef_qualified_sound specs o) (ObjectRef_qualified_except specs o)). Qed.
+Print Assumptions C20_ObjectRef_matches_qualifier_except.
+Example C20_ObjectRef_ex :
+  ObjectRef_qualified [QO 1 10; QO 2 10; QO 3 1] (QO 1 10) = true /\
+  ObjectRef_qualified [QO 1 10; QO 2 10; QO 3 1] (QO 3 1) = false.
+Proof. vm_compute. split; reflexivity. Qed.
 
 (** * sql/postgres *)
 
